@@ -16,7 +16,7 @@ import logging
 from sfv.framework import Ctx, Property
 from sfv.rt.hexs import hx, unhx
 from sfv.rt.sfctx import make_context
-from sfv.rt.shfake import in_scratch_cwd, Hang, MiniConnector, kill_leftovers, run_watchdog
+from sfv.rt.shfake import in_scratch_cwd, Hang, MiniConnector, MultiRootConnector, VIRT, kill_leftovers, run_watchdog
 from sfv.rt.trees import diff, make_tree, rand_name, resolved, snapshot
 from sfv.translate import cmdtmpl
 
@@ -72,6 +72,7 @@ class C22(Property):
     drivers = ["Drivers/C22.lean"]
     translators = [cmdtmpl.generate]
     quick_budget_s = 900
+    thorough_budget_s = 3000
     rule = ("random trees (0..30 entries, empty files and directories, binary contents, names with blanks, quotes, unicode, leading dashes, in-tree "
             "symlinks; up to 1 MiB files in the thorough tier) are transferred with the real DefaultDataManager.transfer_data between every "
             "pair of {local, fake remote A location 0/1, fake remote B} (persistent-sh BaseConnector subclasses rooted in private directories), "
@@ -101,6 +102,7 @@ class C22(Property):
         logging.getLogger("streamflow").setLevel(logging.ERROR)
         self.gen = getattr(self, "gen", 0) + 1
         self.n = 0
+        self.reg_lines, self.reg_expect = [], []
         try:
             self.table = cmdtmpl.table(os.environ.get("SFV_REPO", "/repo"))
         except Exception as e:  # noqa: BLE001  (the framework has already recorded the broken extractor)
@@ -116,7 +118,7 @@ class C22(Property):
         dep = "remA" if kind.startswith("remA") else "remB"
         return ExecutionLocation(name="loc" + kind[-1], deployment=dep, local=False)
 
-    def one_transfer(self, ctx: Ctx, case: dict) -> dict:
+    def one_transfer(self, ctx: Ctx, case: dict, bound: float = 30) -> dict:
         """build the tree of `case`, run transfer_data, return the observation"""
         import random
         rng = random.Random(case["seed"])
@@ -165,7 +167,7 @@ class C22(Property):
                     except Exception:  # noqa: BLE001
                         pass
         try:
-            run_watchdog(go, 30)
+            run_watchdog(go, bound)
             obs["status"] = "ok"
         except Hang as e:
             obs["status"] = "hang"
@@ -285,7 +287,87 @@ class C22(Property):
         elif not all(isinstance(obs[n + "_registered"], list) and any(av for _, av in obs[n + "_registered"]) for n in ("first", "second")):
             ctx.fail("transfer:concurrent:destination-not-registered-as-available", detail, replay)
 
+    def registry_model_line(self, case: dict, obs: dict) -> None:
+        """the registration steps of transfer_data on the Lean registry model vs what get_data_locations(final, destination) returns"""
+        if case["src_kind"].startswith("wrap") or case["dst_kind"].startswith("wrap") or obs["status"] != "ok" or not isinstance(obs["registered"], list):
+            return
+        if not (is_safe(obs["src"]) and is_safe(obs["dst"])):
+            return
+        locid = {"local": 0, "remA0": 1, "remA1": 2, "remB0": 3}
+        comps = lambda p: " ".join(hx(c) for c in p.split("/") if c)
+        self.reg_lines.append(f"reg {int(case['writable'])} {locid[case['src_kind']]} {locid[case['dst_kind']]} S {comps(obs['src'])} F {comps(obs['final'])}")
+        self.reg_expect.append((("objs " + " ".join(sorted(hx(p) for p, _, _ in obs["registered"]))).strip(),
+                                {"case": {k: case[k] for k in ("src_kind", "dst_kind", "writable", "dst_exists_dir")}, "registered": obs["registered"]}))
+
+    def sibling_case(self, ctx: Ctx, case: dict) -> None:
+        """transfer between two locations of ONE deployment that have distinct file systems (`MultiRootConnector`): the copy that exists on
+        the sibling location is not local to the destination"""
+        import random
+        rng = random.Random(case["seed"])
+        self.n += 1
+        base = os.path.join(ctx.scratch, f"sib{self.gen}_{self.n}")
+        os.makedirs(base)
+        context = make_context(base)
+        conn = MultiRootConnector("remM", os.path.join(base, "fs"), locations=("loc0", "loc1"))
+        context.deployment_manager.deployments_map["remM"] = conn
+        l0 = ExecutionLocation(name="loc0", deployment="remM", local=False)
+        l1 = ExecutionLocation(name="loc1", deployment="remM", local=False)
+        vsrc = f"{VIRT}/S/src_{tame_name(rng)}"
+        vdst = f"{VIRT}/D/dst_{tame_name(rng)}"
+        rsrc = conn.real("loc0", vsrc)
+        os.makedirs(os.path.dirname(rsrc))
+        if case["src_is_dir"]:
+            make_tree(rng, rsrc, max_entries=8, nasty=0.3, symlinks=False, long_names=False)
+            with open(os.path.join(rsrc, "always"), "wb") as f:
+                f.write(rng.randbytes(2000))
+        else:
+            with open(rsrc, "wb") as f:
+                f.write(rng.randbytes(3000))
+        want = snapshot(rsrc)
+        obs = {}
+
+        async def go():
+            try:
+                context.data_manager.register_path(location=l0, path=vsrc, relpath=vsrc, data_type=DataType.PRIMARY)
+                await context.data_manager.transfer_data(src_location=l0, src_path=vsrc, dst_locations=[l1], dst_path=vdst, writable=case["writable"])
+            finally:
+                await conn.undeploy(False)
+        try:
+            run_watchdog(go, 120)
+            obs["status"] = "ok"
+        except Hang as e:
+            obs["status"] = "hang: " + str(e)
+        except Exception as e:  # noqa: BLE001
+            obs["status"] = f"error {type(e).__name__}: {str(e)[:150]}"
+        rdst = conn.real("loc1", vdst)
+        got = snapshot(os.path.realpath(rdst)) if os.path.lexists(rdst) and os.path.exists(rdst) else {"": ("missing-or-dangling",)}
+        d = diff(want, got)
+        wrong_side = os.path.lexists(conn.real("loc0", vdst))
+        try:
+            locs = context.data_manager.get_data_locations(path=vdst, deployment="remM", location_name="loc1")
+            reg = [(l.data_type.name, l.available.is_set()) for l in locs]
+        except Exception as e:  # noqa: BLE001
+            reg = f"error {e!r}"
+        context.deployment_manager.deployments_map.pop("remM", None)
+        try:
+            run_watchdog(context.close, 10)
+        except Exception:  # noqa: BLE001
+            pass
+        kill_leftovers()
+        cmds = [(k, " ".join(c)[:80]) for k, c in conn.commands][:8]
+        shutil.rmtree(base, ignore_errors=True)
+        ctx.case({"op": "sibling-location-transfer", "dir": case["src_is_dir"], "writable": case["writable"], "status": obs["status"], "diff": d[:1]},
+                 ("sibling", case["seed"], case["src_is_dir"], case["writable"]), "sibling-locations:loc0->loc1")
+        replay = {"op": "sibling", "case": case}
+        detail = (f"remM/loc0 -> remM/loc1 (distinct file systems), {'dir' if case['src_is_dir'] else 'file'}, {'rw' if case['writable'] else 'ro'}: status {obs['status']}; "
+                  f"destination on loc1 {d[:2] or 'equal'}; created on loc0 instead: {wrong_side}; registered {reg}; commands {cmds}")
+        if obs["status"] != "ok" or d or wrong_side:
+            ctx.fail("transfer:sibling-locations:destination-on-the-other-location-missing-or-wrong", detail, replay)
+        elif not (isinstance(reg, list) and any(av for _, av in reg)):
+            ctx.fail("transfer:sibling-locations:destination-not-registered-as-available", detail, replay)
+
     def judge(self, ctx: Ctx, case: dict, obs: dict) -> None:
+        self.registry_model_line(case, obs)
         route = f"{case['src_kind'].rstrip('01')}->{case['dst_kind'].rstrip('01')}"
         if case["src_kind"] == case["dst_kind"]:
             route += ":same-location"
@@ -313,7 +395,8 @@ class C22(Property):
         if uses_shell and (rel_src or rel_dst):
             which = "src+dst" if rel_src and rel_dst else ("src" if rel_src else "dst")
             ctx.fail(f"transfer:{cls}:unquoted-{which}-path", detail, replay)
-        elif obs["status"] == "ok" and obs["diff"] and case["dst_exists_dir"] and case["src_is_dir"] and route.startswith("rem") and route.split("->")[1].startswith("local"):
+        elif obs["status"] == "ok" and obs["diff"] and case["dst_exists_dir"] and case["src_is_dir"] and cls == "remote->local":
+            # root cause, whatever the kind of remote source (plain, wrapped, wrapped with mounts) and the writable flag: extract_tar_stream
             ctx.fail("transfer:remote->local:directory-into-existing-directory:children-beside-basename", detail, replay)
         elif (obs["status"] == "ok" and cls == "remote->remote" and not case["src_is_dir"] and not case["dst_exists_dir"]
               and case["src_name"] != case["dst_name"] and len(obs["diff"]) == 1 and "True) != ('f'" in obs["diff"][0] and "False)" in obs["diff"][0]):
@@ -416,6 +499,9 @@ class C22(Property):
         for sk in (["local", "remA0"] * (4 if big else 1)):
             for is_dir in (True, False):
                 self.concurrent_case(ctx, {"seed": rng.randrange(1 << 30), "src_kind": sk, "src_is_dir": is_dir})
+        for wr in ((True, False) * (3 if big else 1)):
+            for is_dir in (True, False):
+                self.sibling_case(ctx, {"seed": rng.randrange(1 << 30), "src_is_dir": is_dir, "writable": wr})
         n = 150 if big else 14
         cases = corpus + [self.gen_case(rng, big and ctx.tier == "thorough") for _ in range(n)]
         for case in cases:
@@ -423,8 +509,18 @@ class C22(Property):
                 ctx.extra["incomplete"] = True
                 break
             obs = self.one_transfer(ctx, case)
+            if obs["status"] == "hang" and is_safe(obs["src"]) and is_safe(obs["dst"]):
+                # no shell-special character is involved: confirm the time-out alone with a much larger bound before reporting it
+                ctx.count("slow-transfer-rerun-with-larger-bound")
+                obs = self.one_transfer(ctx, case, bound=240)
             self.judge(ctx, case, obs)
-        got = ctx.lean("Drivers/C22.lean", lines)
+        all_got = ctx.lean("Drivers/C22.lean", lines + self.reg_lines)
+        got = all_got[:len(lines)]
+        for g, (e, sample) in zip(all_got[len(lines):], self.reg_expect):
+            ctx.count("registry-model")
+            if " ".join(sorted(g.split()[1:])) != " ".join(e.split()[1:]):
+                ctx.disagree("registration steps of transfer_data on the registry model", f"real {[unhx(x) for x in e.split()[1:]]}, "
+                             f"Lean model {[unhx(x) for x in g.split()[1:]]}", sample)
         for g, e, m in zip(got, expect, meta):
             if g != e:
                 ctx.disagree(f"model vs {m[0]}", f"{m[1]}: code {e!r} ({unhx(e.split()[1]) if len(e.split()) > 1 and e.split()[0] in ('xC', 'xCstrip', 'tee') else ''}), Lean model {g!r}", m[1])
@@ -435,7 +531,10 @@ class C22(Property):
     def replay(self, ctx: Ctx, data) -> None:
         self._setup(ctx)
         r = data.get("replay") or {}
-        if r.get("op") == "concurrent":
+        if r.get("op") == "sibling":
+            self.sibling_case(ctx, r["case"])
+            print(ctx.samples[-1] if ctx.samples else "")
+        elif r.get("op") == "concurrent":
             self.concurrent_case(ctx, r["case"])
             print(ctx.samples[-1] if ctx.samples else "")
         elif r.get("op") == "transfer":
